@@ -31,7 +31,7 @@ def recase(rng, s):
 class C07(Check):
     ID = 'C07'
     RULE = ('random maskbits files (1-8 groups, 1-64 labels on sparse bits always drawn with some of {0,31,32,62,63}, '
-            '0-4 aliases) rendered with comments, blank lines, blanks/tabs and trailing comments, parsed by the real '
+            '0-4 aliases) rendered with comments, blank lines, blanks/tabs, trailing comments and (40%) the lines of different groups interleaved, parsed by the real '
             'raw-mode yanny path via set_maskbits; ~40 queries per file: label subsets in random order and letter case, '
             'random/single-bit/all-ones/undefined-only 64-bit values as Python int, numpy uint64 and int64 (two\'s '
             'complement), aliases, unknown groups/labels, existence queries in all four flag combinations.  '
@@ -198,6 +198,11 @@ class C07(Check):
             rows.append(['maskalias%s%s%s%s%s"alias of %s"' % (sp(), g, sp(), a, sp(), g)])
         # aliases must follow nothing in particular (set_maskbits resolves them after all rows are read)
         L.shuffle(rows)
+        if L.random() < 0.4:
+            # the lines of one group need not be contiguous in the file (e.g. bits appended in a later section)
+            flat = [r for block in rows for r in block]
+            L.shuffle(flat)
+            rows = [flat]
         for block in rows:
             for r in block:
                 lines.append(r)
